@@ -89,7 +89,7 @@ CLAIMS["C04"] = {
     "technique": "fault monitors around the real compiler (catch_unwind + panic-location hook, per-thread CPU-time watchdog, worker-death detection with gdb stack naming) + range checker of every diagnostic against the file text + load / reference-closure walk of every success",
     "text": "Every request runs extract+emit_code on a fresh 64 MB-stack thread under catch_unwind; a panic, a killed worker, >20 s CPU (re-checked alone with 60 s), an emit error without diagnostic, "
             "a diagnostic whose file/line/column is not inside the project text, an unlocated diagnostic for a file that parses, a module that does not load, a missing parser or a dangling RefRuntype is a violation. "
-            "Totality is approximated by absence of failures on ~1.2e4 (quick) / 6e5 (thorough) hostile programs; the evidence lists the diagnostic kinds and outcomes actually observed.",
+            "Totality is approximated by absence of failures on ~1.2e4 (quick) / 6e5 (thorough) hostile programs; the evidence lists the diagnostic kinds and outcomes actually observed. Three enumerated grids are judged as well: (container of a self-reference) x (type operator), (empty or collapsing type) x (position), and (enum member form) x (use) x (import style) for an enum declared in a module much longer than the entry file, where every diagnostic must lie inside the file it names. A worker death counts only if the request dies again alone in a fresh process; its stack is read with gdb (retried).",
     "note": "Bounded progress only (20 s / 60 s CPU). Nesting depth of generated input is small, so a stack overflow can only come from unbounded recursion. Native build stands for wasm (A1); module loading through the cjs-style assembly, ESM import for a sample.",
 }
 
@@ -149,7 +149,7 @@ CLAIMS["C06"] = {
     "technique": "invariant monitor on the public BddOps / SemTypeOps / bdd_to_dnf / dnf_to_bdd results with an independent evaluator: truth tables under all 16 assignments (layer 1, 3) and value membership read from the engine's own tables (layer 2)",
     "text": "Layer 1 evaluates a diagram as (atom AND left) OR middle OR (NOT atom AND right) under all assignments of 4 atoms and requires eval(op(x,y)) = op(eval x, eval y) for every operation application explored (tens of thousands of distinct diagrams, including non-False middle branches and both atom orders). "
             "Layer 3 requires the DNF read as a formula, and the diagram rebuilt from it, to have the table of the original. Layer 2 fixes the denotation of every atom (a value is in a mapping / list atom iff it satisfies the atom's table entry, open reading) and requires membership in A op B to be the Boolean combination of the memberships in A and B for every probe value "
-            "(exact values of both operand types, their one-step variants, pseudo values for absent / bigint / Date tags).",
+            "(exact values of both operand types, their one-step variants, pseudo values for absent / bigint / Date tags). Leaves include the eleven typed-array classes (pairwise disjoint value sets: a value is an instance of exactly one), bigint and Date, so the allow/deny lists of every proper-subtype kind are exercised.",
     "note": "Exactness is checked under one fixed denotation of atoms, which is all Boolean exactness needs; whether the emptiness check reads atoms consistently is C05's subject.",
 }
 SPEC["C07"] = {
@@ -198,7 +198,7 @@ SPEC["C13"] = {
 CLAIMS["C13"] = {
     "technique": "online stream monitor on Hash256Writer (prototype wrapper) against node:crypto SHA-256 + metamorphic digest comparison under rewrites + behaviour=>digest bucket monitor with near-miss twins",
     "text": "Every byte handed to every Hash256Writer during the run is recorded by a wrapper installed from outside and the digest compared with node:crypto over the same bytes (exhaustive over message lengths 0..320); "
-            "hash256/hash of each parser is compared before and after meaning-preserving renamings/reorderings/comments; validators sharing a digest must share their verdict vector, and one-edit twins that the pool distinguishes must get different digests.",
+            "hash256/hash of each parser is compared before and after meaning-preserving renamings/reorderings/comments; validators sharing a digest must share their verdict vector, and one-edit twins that the pool distinguishes must get different digests. Twins are also built by retargeting ONE reference inside copies of the declarations (a recursive back-edge aimed at another enclosing type), and an enumerated grid of chains T1 -> ... -> Tn whose back-reference names each enclosing type in turn must give pairwise different digests; 600 strings must reach the hasher as pairwise different byte streams.",
     "note": "behaviour=>digest is only as strong as the common pool / generated twins; SHA-256 equality is exact. Known findings record where alias boundaries change the emitted structure and hence the digest.",
 }
 
@@ -219,7 +219,7 @@ CLAIMS["C14"] = {
     "technique": "history monitor over the real long-lived session (thread-local BUNDLER reached through the beff_verif native host): write/rebuild histories with a from-scratch oracle (fresh thread = fresh session) after every rebuild; differing rebuilds are attributed by re-execution and delta-debugged",
     "text": "For every generated history the same beff-wasm entry points the watch loop uses (update_file_content, bundle_to_string, bundle_to_diagnostics, emit_diagnostic) are driven on one session thread over a virtual disk. "
             "Writes are reported to the session the way commandeer.ts does (only for files the session has read; a second policy reports every write). After EVERY rebuild the session's code, emitted diagnostics and diagnostics result must equal "
-            "those of a brand-new session on the current disk. A differing rebuild is attributed (`as-if[f: old->new]`: the session answers exactly like a fresh session on a disk where f still has its earlier content) and shrunk while the attribution stays the same.",
+            "those of a brand-new session on the current disk. A differing rebuild is attributed (`as-if[f: old->new]`: the session answers exactly like a fresh session on a disk where f still has its earlier content) and shrunk while the attribution stays the same. Projects contain relative imports, a path alias (@app/...) resolved by the host, a barrel module that only passes names on with export *, and file variants in which a name moves between the barrel's targets, stops being exported, becomes unparsable or unresolvable, or only changes its doc comments.",
     "note": "Diagnostics of one build are compared as multisets. The JavaScript half of the watch loop (chokidar, fs) is modelled by the notification policy, not executed.",
 }
 SPEC["C15"] = {
@@ -247,7 +247,7 @@ CLAIMS["C09"] = {
     "technique": "metamorphic runtime monitor: single-file program vs. generated multi-file layouts compiled by the real compiler (outcome, validators on a value pool, hash256), plus broken-link fault injection expecting a diagnostic",
     "text": "Each generated program is compiled as one file and as a project whose declarations are spread over files with randomly chosen import/export styles; both must compile and every parser must give the same verdicts "
             "(and, up to recorded alias/member-order findings, the same hash256). With two different types given the same name in different files the parsers must still match their single-file counterparts. "
-            "After removing an export, an import or a file that a parser depends on, the project must produce a diagnostic and no code.",
+            "After removing an export, an import or a file that a parser depends on, the project must produce a diagnostic and no code. Enumerated grids add: two declarations of one name in two files for each declaration kind (alias, interface, enum used whole / through a member / behind an alias, const through typeof) x import style x shape, judged on four distinguishing values; and a module that imports a VALUE while declaring a TYPE of the same name. A rejected split project is attributed by a model of beff's export walk (does an export * lead back into the named re-export being resolved?), which keys the one recorded finding of that kind.",
     "note": "Module resolution is the harness's TypeScript-style probing over a virtual project (.ts/.tsx/.d.ts/index.ts), not tsc's; chokidar / tsconfig paths are out of scope.",
 }
 
